@@ -648,6 +648,12 @@ def _negated_weights(call, wname):
     return False
 
 
+
+@rule("C11.defuse", "anchored files: every parameter is read, no value is computed and dropped (generic def-use detectors, triaged hit list)", floor=2)
+def defuse(rc):
+    from . import shared as _sh
+    _sh.defuse_rule(rc, _sh.anchor_files("C11"))
+
 MUTANTS = [
     dict(kind="break", name="add-no-cycle-check", file=HC, expect="C11.legal",
          old="if not nx.has_path(model, Y, X):", new="if not nx.has_path(model, X, Y):"),
